@@ -20,8 +20,11 @@ A Python-only deployment is emulated by an Unpickler that resolves the class
 names in a pickle (always the C names) to the *Py classes.
 """
 import argparse
+import concurrent.futures as cf
 import copy
 import io
+import multiprocessing
+import os
 import pickle
 import sys
 
@@ -61,6 +64,25 @@ def typed_state(t):
             return (type(x).__name__.replace("Py", ""), rec(x.__getstate__()))
         return (type(x).__name__, x)
     return rec(t.__getstate__())
+
+
+def implementations(u):
+    """The set of implementations ('c' / 'py') of the nodes named by the state
+    of u.  A reproduced container must be of ONE implementation: a C node
+    reads its children as C structs, so a mixture cannot be used at all (the
+    walk only calls __getstate__, which is safe on such a mixture)."""
+    from BTrees._base import _Base
+    out = set()
+
+    def rec(x):
+        if isinstance(x, tuple):
+            for y in x:
+                rec(y)
+        elif hasattr(x, "__getstate__") and hasattr(x, "_p_oid"):
+            out.add("py" if isinstance(x, _Base) else "c")
+            rec(x.__getstate__())
+    rec(u)
+    return out
 
 
 def inlined_nonroot_leaf(t):
@@ -171,6 +193,9 @@ def judge(cfg, u, expected, mutate):
         return None
 
     try:
+        if len(implementations(u)) > 1:
+            return ("mixed-implementations", "a %s whose children are %s objects (using it crashes the interpreter; not used)"
+                    % (type(u).__name__, type(u._firstbucket).__name__))
         got = H.contents(u, is_set)
         if got != expected or len(u) != len(expected) or bool(u) != bool(expected):
             return ("contents", "contents %r (len %d), expected %r" % (got, len(u), expected))
@@ -209,15 +234,16 @@ def sweep(s, cfg, trees, expected, hist):
         try:
             u = make()
         except Exception as e:
-            rep.fail(impl, "raises", via + suffix, "%s raised %s: %s" % (via, type(e).__name__, e), **extra)
+            rep.fail(impl, "raises", via, "%s raised %s: %s" % (via, type(e).__name__, e), **extra)
             return None
-        if type(u) is not cfg.cls[impl]:
-            rep.fail(impl, "class", via + suffix, "%s gave a %s" % (via, type(u).__name__), **extra)
-            return u
+        if type(u) not in cfg.cls.values():           # (the Python classes reduce to the C classes by design)
+            rep.fail(impl, "class", via, "%s gave a %s" % (via, type(u).__name__), **extra)
+            return None
         bad = judge(cfg, u, expected, mutate)
         if bad:
-            rep.fail(impl, bad[0], via + suffix, "%s (%s): %s" % (via, impl, bad[1]), **extra)
-        return u
+            rep.fail(impl, bad[0], via + (suffix if bad[0] in ("contents", "unsound", "unusable") else ""),
+                     "%s (%s): %s" % (via, impl, bad[1]), **extra)
+        return None if bad else u
 
     shared = {}
     for impl, t in trees.items():
@@ -236,11 +262,16 @@ def sweep(s, cfg, trees, expected, hist):
             try:
                 data[impl] = pickle.dumps(t, proto)
             except Exception as e:
-                rep.fail(impl, "raises", "dumps" + suffix, "pickle.dumps protocol %d raised %s: %s" % (proto, type(e).__name__, e), protocol=proto)
+                rep.fail(impl, "raises", "dumps", "pickle.dumps protocol %d raised %s: %s" % (proto, type(e).__name__, e), protocol=proto)
         same = not cfg.sub and len(data) == 2 and data["c"] == data["py"]
         if not cfg.sub and len(data) == 2 and not same:
             # byte identity ("emit byte-identical pickles for the same history")
-            st = "same-typed-state" if typed_state(trees["c"]) == typed_state(trees["py"]) else "state-differs"
+            # diagnosis for the key only: do the two pickles differ merely in which equal objects are shared (memo)?
+            try:
+                relay = [pickle.dumps(pickle.loads(data[i]), proto) for i in ("c", "py")]
+                st = "object-sharing-only" if relay[0] == relay[1] else "content"
+            except Exception:
+                st = "content"
             rep.fail("twin", "bytes-differ", st, "protocol %d: C pickle %r, Python pickle %r" % (proto, data["c"], data["py"]), protocol=proto)
         for src, b in data.items():
             for loader in ("c", "py"):
@@ -250,7 +281,7 @@ def sweep(s, cfg, trees, expected, hist):
                     continue                          # identical bytes: both directions are the loads of src == 'c'
                 via = "pickle" if loader == src or same else "pickle-%s-to-%s" % (src, loader)
                 attempt(loader, via, lambda: loads_as(loader, b), True, protocol=proto, written_by=src if not same else "c=py")
-    for impl, u in shared.items():
+    for impl, u in shared.items():                        # the copy.copy results that were fine so far: now use them
         if u is not None:
             s.evaluations += 1
             bad = judge(cfg, u, expected, True)
@@ -285,8 +316,19 @@ def run_config(s, cfg, n_random, exhaustive_len):
             if not ok or (a, tuple(ref.keys())) in seen:
                 continue
             seen.add((a, tuple(ref.keys())))
+            if not s.samples and cfg.is_tree and len(trees["c"].__getstate__() or ()) == 2:    # one multi-level case, written out
+                s.samples.append({"container": cfg.tag(), "history": [list(map(repr, o)) for o in h], "contents": repr(ref.contents()),
+                                  "pickle_protocol_2_by_C": repr(pickle.dumps(trees["c"], 2)),
+                                  "equal_to_pickle_by_Python": pickle.dumps(trees["c"], 2) == pickle.dumps(trees["py"], 2)})
             sweep(s, cfg, trees, ref.contents(), h)
-    return len([x for x in seen if x[0] is not None])
+    return len([x for x in seen if x[1]])                 # non-empty states swept
+
+
+def run_job(job):
+    fam, kind, sizes, sub, n_random, exh = job
+    part = Standin(name="part", bound="")
+    distinct = run_config(part, Config(fam, kind, sizes, sub), n_random, exh)
+    return part.evaluations, distinct, part.failures, part.samples
 
 
 def main():
@@ -306,16 +348,21 @@ def main():
                      "typed states (shape + keys + values) swept",
                 functions=["bucket_getstate", "_bucket_setstate", "_set_setstate", "BTree_getstate", "_BTree_setstate",
                            "_Tree.__getstate__/__setstate__", "Bucket/Set.__getstate__/__setstate__", "_Base.__reduce__ (class swap)"])
+    jobs = []
     for fam in H.fams():
         for kind in ("BTree", "TreeSet", "Bucket", "Set"):
             tree = kind in ("BTree", "TreeSet")
-            for sizes in ([(3, 3), (2, 2)] if tree else [(None, None)]):
-                s.distinct_nontrivial += run_config(s, Config(fam, kind, sizes, False), n_random, exh)
+            jobs += [(fam, kind, sizes, False, n_random, exh) for sizes in ([(3, 3), (2, 2)] if tree else [(None, None)])]
             if tree:
-                s.distinct_nontrivial += run_config(s, Config(fam, kind, (2, 3), True), 0, 0)
-    s.samples = [{"family": "OO", "kind": "BTree", "sizes": [3, 3], "history": "setitem(0,'a') ... setitem(8,'a') delitem(1) delitem(3)",
-                  "checked": "setstate(getstate), copy.copy, copy.deepcopy, pickle protocols 0..5 C<->Python: bytes equal; "
-                             "each reproduced tree: contents, walk/_check/check, then 3 inserts + 2 deletes"}]
+                jobs.append((fam, kind, (2, 3), True, 0, 0))
+    # configurations are independent: spread them over the cores (results are merged in job order)
+    ctx = multiprocessing.get_context("fork")
+    with cf.ProcessPoolExecutor(max_workers=min(16, os.cpu_count() or 1, len(jobs)), mp_context=ctx) as ex:
+        for evaluations, distinct, failures, samples in ex.map(run_job, jobs):
+            s.evaluations += evaluations
+            s.distinct_nontrivial += distinct
+            s.failures.extend(failures)
+            s.samples = s.samples or samples
     write_standin(a.out, s)
 
 
